@@ -9,14 +9,14 @@ use crate::exec::{guarded, snap, snap_matches, Caught, Out, World};
 use crate::types::*;
 
 pub const LZ_SRCS: u8 = 6;
-pub const LZ_HOWS: u8 = 7;
+pub const LZ_HOWS: u8 = 9;
 
 #[derive(Clone, Copy)]
 struct LzPlan { depth: u8, uses: u8, how: u8, copies: u8 }
 
 /// the different handle types only share `TrX`'s per-type methods; this macro applies a plan to one of them
 macro_rules! lz_apply {
-    ($feed:ident, $down:ident, $crea:ident, $rep:ident, $T:ty, $Tr:ty, $h:expr, $plan:expr, $b:expr, $got:expr, $reps:expr) => {{
+    ($feed:ident, $down:ident, $crea:ident, $rep:ident, $T:ty, $Tr:ty, $h:expr, $plan:expr, $b:expr, $d:expr, $got:expr, $reps:expr) => {{
         let p: LzPlan = $plan;
         $reps.push(<$Tr>::$rep($h, p.depth));
         <$Tr>::$crea($h, p.depth, p.copies);
@@ -28,6 +28,9 @@ macro_rules! lz_apply {
                 4 => <$Tr>::$feed($h, p.depth, $b, SpliceC(0)),
                 5 => <$Tr>::$feed($h, p.depth, $b, PushUncheckedC),
                 6 => <$Tr>::$feed($h, p.depth, $b, InsertUncheckedC(0)),
+                // destination with ANOTHER constraint set (no Cloneable): the clone function travels with the lazy clone
+                7 => <$Tr>::$feed($h, p.depth, $d, InsertC(0)),
+                8 => <$Tr>::$feed($h, p.depth, $d, PushC),
                 _ => { let v: Option<$T> = <$Tr>::$down::<$T, _>($h, p.depth); let v = v.expect("lazy clone downcast to the real type failed"); $got.push(v.id()); let _w = elem::WindowOff::new(); drop(v); }
             }
         }
@@ -44,6 +47,15 @@ impl<T: Elem + SatisfyTraits<Tr>, M: MX, Tr: TrX + ?Sized> World<T, M, Tr> {
         let plan = LzPlan { depth, uses, how, copies };
         let World { a, b, ma, mb, .. } = self;
         let b = b.as_mut().unwrap();
+        // D: a vector of the same element type whose constraint set lacks Cloneable (pre-reserved outside the library window)
+        let mut md: Vec<Mv> = Vec::with_capacity(8);
+        let mut d: AnyVec<dyn any_vec::traits::None, M::Aux> = {
+            let _w = elem::WindowOff::new();
+            let mut d = if <M::Aux as MX>::SIZEABLE { <M::Aux as MX>::with_capacity::<T, dyn any_vec::traits::None>(16) } else { AnyVec::<dyn any_vec::traits::None, M::Aux>::new_in::<T>(<M::Aux as MX>::make()) };
+            if how == 7 || how == 8 { let mut t = d.downcast_mut::<T>().unwrap(); for _ in 0..2 { let v = T::fresh(); md.push(Mv::Id(v.id())); t.push(v); } }
+            d
+        };
+        let dd = &mut d;
         let before = elem::with_reg(|r| (r.clones + r.zst_clones, r.drops + r.zst_drops));
         let mut got: Vec<u16> = Vec::with_capacity(8);
         let g = &mut got;
@@ -52,16 +64,16 @@ impl<T: Elem + SatisfyTraits<Tr>, M: MX, Tr: TrX + ?Sized> World<T, M, Tr> {
         // (source id, what happens to the source in A afterwards)
         let src_id = match ma[if src == 2 { len - 1 } else { j }] { Mv::Id(i) => i, Mv::CloneOf(p) => p };
         let r = guarded(|| match src {
-            0 => { let e = a.at(j); lz_apply!(lz_element, lzd_element, lzc_element, lzr_element, T, Tr, &*e, plan, b, g, rp); }
-            1 => { let e = a.at_mut(j); lz_apply!(lz_element, lzd_element, lzc_element, lzr_element, T, Tr, &*e, plan, b, g, rp); }
-            2 => { let h = a.pop().unwrap(); lz_apply!(lz_pop, lzd_pop, lzc_pop, lzr_pop, T, Tr, &h, plan, b, g, rp); b.push(h); }
-            3 => { let h = a.remove(j); lz_apply!(lz_remove, lzd_remove, lzc_remove, lzr_remove, T, Tr, &h, plan, b, g, rp); b.push(h); }
-            4 => { let h = a.swap_remove(j); lz_apply!(lz_swap_remove, lzd_swap_remove, lzc_swap_remove, lzr_swap_remove, T, Tr, &h, plan, b, g, rp); b.push(h); }
-            _ => { let mut d = a.drain(j..j + 1); let e = d.next().unwrap(); lz_apply!(lz_element, lzd_element, lzc_element, lzr_element, T, Tr, &e, plan, b, g, rp); b.push(e); drop(d); }
+            0 => { let e = a.at(j); lz_apply!(lz_element, lzd_element, lzc_element, lzr_element, T, Tr, &*e, plan, b, dd, g, rp); }
+            1 => { let e = a.at_mut(j); lz_apply!(lz_element, lzd_element, lzc_element, lzr_element, T, Tr, &*e, plan, b, dd, g, rp); }
+            2 => { let h = a.pop().unwrap(); lz_apply!(lz_pop, lzd_pop, lzc_pop, lzr_pop, T, Tr, &h, plan, b, dd, g, rp); b.push(h); }
+            3 => { let h = a.remove(j); lz_apply!(lz_remove, lzd_remove, lzc_remove, lzr_remove, T, Tr, &h, plan, b, dd, g, rp); b.push(h); }
+            4 => { let h = a.swap_remove(j); lz_apply!(lz_swap_remove, lzd_swap_remove, lzc_swap_remove, lzr_swap_remove, T, Tr, &h, plan, b, dd, g, rp); b.push(h); }
+            _ => { let mut d = a.drain(j..j + 1); let e = d.next().unwrap(); lz_apply!(lz_element, lzd_element, lzc_element, lzr_element, T, Tr, &e, plan, b, dd, g, rp); b.push(e); drop(d); }
         });
         match r {
-            Err(Caught::Injected) => { out.faulted = true; return; }
-            Err(Caught::Panic(m)) => { out.fail(Class::Vec, "unexpected-panic", format!("lazy clone protocol panicked: {m}")); out.faulted = true; return; }
+            Err(Caught::Injected) => { out.faulted = true; Self::check_other::<dyn any_vec::traits::None>(&d, out); let _ = guarded(move || drop(d)); return; }
+            Err(Caught::Panic(m)) => { out.fail(Class::Vec, "unexpected-panic", format!("lazy clone protocol panicked: {m}")); out.faulted = true; let _ = guarded(move || drop(d)); return; }
             Ok(()) => {}
         }
         for (sz, tid, bid) in &reps {
@@ -78,7 +90,13 @@ impl<T: Elem + SatisfyTraits<Tr>, M: MX, Tr: TrX + ?Sized> World<T, M, Tr> {
         if T::SIZE != 0 { for id in &got { if elem::parent_of(*id) != Some(src_id) { out.fail(Class::Vec, "lazy-not-a-clone", format!("downcast of a lazy clone gave id {id} whose parent is {:?}, source is {src_id}", elem::parent_of(*id))); } } }
         // model: destination
         for u in 0..uses {
-            match how { 0 | 5 => mb.push(Mv::CloneOf(src_id)), 1 | 4 | 6 => mb.insert(0, Mv::CloneOf(src_id)), 2 => mb.insert(1 + u as usize, Mv::CloneOf(src_id)), _ => {} }
+            match how { 0 | 5 => mb.push(Mv::CloneOf(src_id)), 1 | 4 | 6 => mb.insert(0, Mv::CloneOf(src_id)), 2 => mb.insert(1 + u as usize, Mv::CloneOf(src_id)), 7 => md.insert(0, Mv::CloneOf(src_id)), 8 => md.push(Mv::CloneOf(src_id)), _ => {} }
+        }
+        {
+            let sd = snap::<T, dyn any_vec::traits::None, M::Aux>(&d);
+            if !snap_matches::<T>(&sd, &md) { out.fail(Class::Vec, "other-seq-mismatch", format!("destination with another constraint set holds {:?}, model {:?}", sd, md)); }
+            Self::check_other::<dyn any_vec::traits::None>(&d, out);
+            let _ = guarded(move || drop(d));
         }
         // model: source, then (for handles) the source value itself moved to B's end, proving it stayed usable
         match src {
@@ -89,6 +107,17 @@ impl<T: Elem + SatisfyTraits<Tr>, M: MX, Tr: TrX + ?Sized> World<T, M, Tr> {
             _ => { let x = ma.remove(j); mb.push(x); }
         }
         out.outcome.push_str("ok");
+    }
+
+    /// validity of an extra vector (also after a fault): every visible element alive, intact, once
+    fn check_other<Tr2: ?Sized + TrX>(d: &AnyVec<Tr2, M::Aux>, out: &mut Out) {
+        if T::SIZE == 0 { return; }
+        let mut seen = std::collections::HashSet::new();
+        for (id, ok) in snap::<T, Tr2, M::Aux>(d) {
+            if !ok { out.fail(Class::Own, "garbage-visible", format!("destination vector shows id {id} with a broken canary")); continue; }
+            if !seen.insert(id) { out.fail(Class::Own, "duplicate", format!("id {id} is visible twice in the destination vector")); }
+            if T::HAS_DROP && elem::state_of(id) != elem::IdState::Live { out.fail(Class::Own, "dead-visible", format!("destination vector shows id {id} which is not alive")); }
+        }
     }
 
     /// C07: forget a removal handle, then a follow-up operation
